@@ -358,8 +358,7 @@ def cache_get(key):
 
 
 def cache_put(key, obj):
-    if os.environ.get('VX_NO_CACHE'):
-        return
+    # VX_NO_CACHE only disables *reading*: a verdict computed now is as good as any for byte-identical text later
     os.makedirs(CACHE_DIR, exist_ok=True)
     tmp = os.path.join(CACHE_DIR, '%s.%d.tmp' % (key, os.getpid()))
     json.dump(obj, open(tmp, 'w'))
